@@ -168,7 +168,12 @@ def worker(args):
                         p = WORK / f"reqs_{d}.json"
                         pairs = json.loads(p.read_text()) if p.exists() else []
                         random.Random(d).shuffle(pairs)
-                        reqs_cache[d] = pairs[:max_reqs]
+                        # stratified by request kind (first token): rare kinds must not be sampled away
+                        groups = {}
+                        for pr in pairs:
+                            groups.setdefault(pr[0].split(" ", 1)[0], []).append(pr)
+                        cap = max(50, max_reqs // max(len(groups), 1))
+                        reqs_cache[d] = [pr for g in groups.values() for pr in g[:cap]]
                     pairs = reqs_cache[d]
                     if not pairs:
                         continue
@@ -194,7 +199,7 @@ def worker(args):
 driver_models_cached = {}
 
 
-def run(per_file, workers, only, max_reqs):
+def run(per_file, workers, only, max_reqs, survivors=False):
     global driver_models_cached
     driver_models_cached = driver_models()
     file_drivers = {}
@@ -204,21 +209,62 @@ def run(per_file, workers, only, max_reqs):
         for f in model_closure(mods):
             file_drivers.setdefault(f, set()).add(d)
     jobs = []
-    for f, ds in sorted(file_drivers.items()):
-        if only and only not in str(f):
-            continue
-        for m in mutants_of(f, per_file):
-            jobs.append((m, sorted(ds)))
+    old = []
+    if survivors:   # re-test only the survivors of the previous run (after the ties or the sampling changed)
+        old = json.loads((WORK / "results.json").read_text())
+        keep = [r for r in old if r["verdict"] != "survived"]
+        for r in old:
+            if r["verdict"] == "survived":
+                jobs.append(({k: r[k] for k in ("file", "start", "end", "rep", "pat", "line", "text")}, r["drivers"]))
+        old = keep
+    else:
+        for f, ds in sorted(file_drivers.items()):
+            if only and only not in str(f):
+                continue
+            for m in mutants_of(f, per_file):
+                jobs.append((m, sorted(ds)))
     random.Random(1).shuffle(jobs)
     chunks = [jobs[k::workers] for k in range(workers)]
     t0 = time.time()
     with ProcessPoolExecutor(workers) as ex:
-        allres = [r for rs in ex.map(worker, [(k, c, max_reqs) for k, c in enumerate(chunks) if c]) for r in rs]
+        allres = old + [r for rs in ex.map(worker, [(k, c, max_reqs) for k, c in enumerate(chunks) if c]) for r in rs]
     (WORK / "results.json").write_text(json.dumps(allres, indent=1))
     report(allres, time.time() - t0)
 
 
+def classify(allres):
+    """annotate every mutant with the definition it sits in and whether that definition is run by a driver (transitively)"""
+    defs, bodies = {}, {}
+    for f in sorted((lb.LEAN / "YaqsModel/Model").glob("*.lean")):
+        src = f.read_text()
+        ms = list(re.finditer(r"^\s*(?:@\[[^\]]*\]\s*)?(?:private\s+|protected\s+)?(?:partial\s+)?(?:def|abbrev|instance|structure|inductive)\s+([\w.']+)", src, re.M))
+        lst = []
+        for i, m in enumerate(ms):
+            end = ms[i + 1].start() if i + 1 < len(ms) else len(src)
+            name = m.group(1).split(".")[-1]
+            lst.append((m.start(), end, name))
+            bodies[name] = lb.strip_comments(src[m.start():end])
+        defs[str(f.relative_to(lb.LEAN))] = lst
+    reach, todo = set(), []
+    for f in (lb.LEAN / "Driver").glob("*.lean"):
+        dsrc = lb.strip_comments(f.read_text())
+        todo += [n for n in bodies if re.search(r"(?<![\w])" + re.escape(n) + r"(?![\w'])", dsrc)]
+    while todo:
+        n = todo.pop()
+        if n in reach:
+            continue
+        reach.add(n)
+        todo += [m for m in bodies if m not in reach and re.search(r"(?<![\w])" + re.escape(m) + r"(?![\w'])", bodies.get(n, ""))]
+    for r in allres:
+        name = next((n for a, b, n in defs.get(r["file"], []) if a <= r["start"] < b), "?")
+        r["def"] = name
+        r["cls"] = ("spec-only" if name not in reach else
+                    "code-as-found" if re.search(r"Old|AssertLate|roundHalfEven", name) else "tied")
+    return allres
+
+
 def report(allres, wall):
+    allres = classify(allres)
     by = {}
     for r in allres:
         by.setdefault(r["file"], []).append(r)
@@ -226,24 +272,40 @@ def report(allres, wall):
              "Each mutant is one mechanical edit of a `Model/*.lean` file (relational flip, boolean operator, min/max, off-by-one, true/false, "
              "`+`/`-`, dropped `.reverse`).  *stillborn* = does not compile; *killed* = some recorded request of a quick run of the checks gets "
              "a different answer from the mutated model than from the real code; *survived* = no recorded request tells the mutant from the "
-             "model (an equivalent mutant, a code-as-found variant, or a place where the tie is thin).\n"]
-    tot = {"killed": 0, "survived": 0, "stillborn": 0}
-    lines.append("| model file | mutants | stillborn | killed | survived | kill rate of compiling mutants |")
-    lines.append("|---|---|---|---|---|---|")
+             "model.  Survivors are split by where the mutated definition lives: **tied** = a current-code definition that a driver runs "
+             "(an equivalent mutant, or a place where the tie is thin — these are the ones to look at), *code-as-found* = a second definition "
+             "kept only to recognise a regression (`…Old`), *spec-only* = a predicate or helper that only theorems use (no driver runs it, so "
+             "the tie cannot and need not constrain it).\n"]
+    keys = ["stillborn", "killed", "tied", "code-as-found", "spec-only"]
+    tot = dict.fromkeys(keys, 0)
+    lines.append("| model file | mutants | stillborn | killed | survived: tied | survived: code-as-found | survived: spec-only | kill rate on tied definitions |")
+    lines.append("|---|---|---|---|---|---|---|---|")
+
+    def counts(rs):
+        c = dict.fromkeys(keys, 0)
+        for r in rs:
+            if r["verdict"] == "survived":
+                c[r["cls"]] += 1
+            else:
+                c[r["verdict"]] += 1
+        return c
+
     for f in sorted(by):
-        c = {k: sum(1 for r in by[f] if r["verdict"] == k) for k in tot}
-        for k in tot:
+        c = counts(by[f])
+        for k in keys:
             tot[k] += c[k]
-        live = c["killed"] + c["survived"]
-        lines.append(f"| `{f}` | {len(by[f])} | {c['stillborn']} | {c['killed']} | {c['survived']} | {100 * c['killed'] / live:.0f} % |" if live else
-                     f"| `{f}` | {len(by[f])} | {c['stillborn']} | 0 | 0 | – |")
-    live = tot["killed"] + tot["survived"]
-    lines.append(f"| **total** | {sum(tot.values())} | {tot['stillborn']} | {tot['killed']} | {tot['survived']} | {100 * tot['killed'] / max(live, 1):.0f} % |")
-    lines.append(f"\n(wall {wall:.0f} s)\n\n## Surviving mutants\n")
+        kt = sum(1 for r in by[f] if r["verdict"] == "killed" and r["cls"] == "tied")
+        live = kt + c["tied"]
+        lines.append(f"| `{f}` | {len(by[f])} | {c['stillborn']} | {c['killed']} | {c['tied']} | {c['code-as-found']} | {c['spec-only']} | "
+                     + (f"{100 * kt / live:.0f} %" if live else "–") + " |")
+    kt = sum(1 for r in allres if r["verdict"] == "killed" and r["cls"] == "tied")
+    lines.append(f"| **total** | {len(allres)} | {tot['stillborn']} | {tot['killed']} | {tot['tied']} | {tot['code-as-found']} | {tot['spec-only']} | "
+                 f"{100 * kt / max(kt + tot['tied'], 1):.0f} % |")
+    lines.append(f"\n(wall {wall:.0f} s)\n\n## Surviving mutants in tied definitions\n")
     for f in sorted(by):
         for r in by[f]:
-            if r["verdict"] == "survived":
-                lines.append(f"- `{f}`:{r['line']}  `{r['pat'].strip()}` → `{r['rep'].strip() or '∅'}`   …{r['text']}…")
+            if r["verdict"] == "survived" and r["cls"] == "tied":
+                lines.append(f"- `{f}`:{r['line']} in `{r['def']}`  `{r['pat'].strip()}` → `{r['rep'].strip() or '∅'}`   …{r['text']}…")
     (ROOT / "notes/model_mutation.md").write_text("\n".join(lines) + "\n")
     print("\n".join(lines[3:3 + len(by) + 3]))
 
@@ -255,10 +317,11 @@ if __name__ == "__main__":
     ap.add_argument("--workers", type=int, default=10)
     ap.add_argument("--only", default=None)
     ap.add_argument("--max-reqs", type=int, default=4000)
+    ap.add_argument("--survivors", action="store_true")
     a = ap.parse_args()
     if a.cmd == "collect":
         collect()
     elif a.cmd == "run":
-        run(a.per_file, a.workers, a.only, a.max_reqs)
+        run(a.per_file, a.workers, a.only, a.max_reqs, a.survivors)
     else:
         report(json.loads((WORK / "results.json").read_text()), 0)
